@@ -90,7 +90,12 @@ def integ_mod(cfg):
 
 
 def conv_stmt(cfg):
-    return T.stmt_to_generic if cfg["integration"] == "generic" else T.stmt_to_rdflib
+    if cfg["integration"] == "generic":
+        if cfg.get("odd_str"):
+            w = T.AlternateSpelling()
+            return lambda st: T.stmt_to_generic(st, w)
+        return T.stmt_to_generic
+    return T.stmt_to_rdflib
 
 
 def input_gen(cfg, stmts, sim=None, gate=None):
@@ -116,8 +121,9 @@ def make_container(cfg, stmts, nss):
         sink = GenericStatementSink()
         for p, iri in nss:
             sink.bind(p, T.to_generic(("iri", iri)))
+        conv = conv_stmt(cfg)
         for st in stmts:
-            sink.add(T.stmt_to_generic(st))
+            sink.add(conv(st))
         return sink
     import rdflib
     if stmts and len(stmts[0]) == 4 or cfg["physical"] != "TRIPLES":
